@@ -9,7 +9,7 @@ Line protocol for C06 (arithmetic, comparison, number literals, number printing)
   binrepr <op> <a> <b>    I  representation level: `<kind> <coeff>e<exp> <json text> <cue text>`
                              (exact apd coefficient/exponent, MarshalJSON text, Syntax+format text).
   cmps <op> <x> <y>       O  comparison of strings / bytes / a number: x, y = `s:<hex>` `y:<hex>` `n:<lit>`.
-  lit <hex>               O  value of a spelling through `compiler.parse`: `int|float <c>e<x>` (normalised),
+  lit <hex>               O  value of a string through `literal.ParseNum` + `NumInfo.Decimal` (= `compiler.parse`; a sign is accepted): `int|float <c>e<x>` (normalised),
                              `nan`, `err`.
   litrepr <hex>           I  the same with the exact coefficient/exponent.
   litspec <ast…>          O  the SPECIFICATION: `<hex spelling> <kind> <num>/<den>` of a grammar tree
@@ -148,11 +148,11 @@ def handle (ws : List String) : String :=
     | _, _, _ => "bad-op"
   | ["lit", h] =>
     match unhex h with
-    | some s => litResValue (litValue s)
+    | some s => litResValue (parseNumValue s)
     | none => "bad-op"
   | ["litrepr", h] =>
     match unhex h with
-    | some s => litResRepr (litValue s)
+    | some s => litResRepr (parseNumValue s)
     | none => "bad-op"
   | "litspec" :: rest =>
     match lit? rest with
